@@ -307,6 +307,7 @@ pub struct Stats {
     pub f_growth: u64,
     pub f_delayed: u64,
     pub f_drop_wake: u64,
+    pub f_afterlife: u64,
     pub p_repoll_after_selfwake: u64,
     pub p_bit_already_set: u64,
     pub p_zip_late_row: u64,
@@ -345,7 +346,7 @@ impl Stats {
         acc!(
             f_spurious, f_new_waker, f_same_waker, f_stale, f_dup, f_inpoll, f_selfnow, f_lock,
             f_after_done, f_after_drop, f_cancel, f_panic, f_never, f_slot_reuse, f_growth,
-            f_delayed, f_drop_wake, p_repoll_after_selfwake, p_bit_already_set, p_zip_late_row, p_multi_end, p_multi_end_gt10,
+            f_delayed, f_drop_wake, f_afterlife, p_repoll_after_selfwake, p_bit_already_set, p_zip_late_row, p_multi_end, p_multi_end_gt10,
             p_backpressure, p_err_in_flush, p_err_saturated, p_err_in_progress, p_bulk_frame64, p_big_len, p_remove_live, p_refill, o_lr_frames, o_cp1, o_cp2, o_quiescence, o_c16, o_c20, o_group_view,
             o_co_final, o_drop_accounting, root_polls,
             child_polls, wakes, group_ops, vtime, steps
@@ -356,7 +357,7 @@ impl Stats {
         lst!(
             f_spurious, f_new_waker, f_same_waker, f_stale, f_dup, f_inpoll, f_selfnow, f_lock,
             f_after_done, f_after_drop, f_cancel, f_panic, f_never, f_slot_reuse, f_growth,
-            f_delayed, f_drop_wake, p_repoll_after_selfwake, p_bit_already_set, p_zip_late_row, p_multi_end, p_multi_end_gt10,
+            f_delayed, f_drop_wake, f_afterlife, p_repoll_after_selfwake, p_bit_already_set, p_zip_late_row, p_multi_end, p_multi_end_gt10,
             p_backpressure, p_err_in_flush, p_err_saturated, p_err_in_progress, p_bulk_frame64, p_big_len, p_remove_live, p_refill, o_lr_frames, o_cp1, o_cp2, o_quiescence, o_c16, o_c20, o_group_view,
             o_co_final, o_drop_accounting, root_polls,
             child_polls, wakes, group_ops, vtime, steps
@@ -389,6 +390,8 @@ pub struct World {
     pub next_wid: u32,
     pub in_fire: u32,
     pub suppress_faults: bool,
+    /// the root has produced its final result and the harness polls it again (C03 / C19 only)
+    pub afterlife: bool,
     /// PollEnd records of direct children of the root during the current root frame
     pub frame: Vec<(NodeId, Res, Option<u32>)>,
     /// child poll counter (for fault enumeration) and the poll at which to panic
@@ -464,6 +467,7 @@ impl World {
             next_wid: 1,
             in_fire: 0,
             suppress_faults: false,
+            afterlife: false,
             frame: Vec::new(),
             child_poll_counter: 0,
             panic_at_child_poll: 0,
